@@ -1,12 +1,12 @@
 """C08 — log store queries agree with a reference model and never panic (partial).
 
-Decides the *never panic* clause only: every panic site (overflow/bounds asserts, unwrap/expect,
+Decides the *never panic* clause and the Rust-side *range translation* of the ranged queries (C08.2): every panic site (overflow/bounds asserts, unwrap/expect,
 panicking macros, indexing) reachable from the SqliteStore implementations of LogStore and
 OperationStore through workspace code is discharged by a dominating guard or by a frozen,
 reasoned triage entry.  NOT decided: agreement with the reference model (SQL evaluated by SQLite).
 """
 from mir import panic_sites, reachable_bodies, nonempty_guarded, op_place, op_const
-from facts import Place
+from facts import Place, callee_is
 
 TRIAGE = {
     # key (body|kind|detail) -> reason
@@ -38,14 +38,90 @@ def discharge(site):
     return None
 
 
+def range_bounds(b):
+    """upvar indices of the `Option<integer>` parameters of an async store method, in declaration order"""
+    import re
+    ks = set()
+    for pls in b.vars.values():
+        for p in pls:
+            if p.local == 1 and p.proj and isinstance(p.proj[0], list) and p.proj[0][0] == "f" and \
+                    re.match(r"^core::option::Option<(u8|u16|u32|u64|usize|S)>$", p.proj[0][3] or ""):
+                ks.add(p.proj[0][1])
+    return sorted(ks)
+
+
+def rule_ranges(ctx):
+    """C08.2 — every ranged log query (two Option<SeqNum> bounds) translates its bounds the same way:
+    after = None -> `>= 0`, after = Some(a) -> `> a` (exclusive), until = None -> `<= MAX`, Some(u) -> `<= u`.
+    Decision table of the Rust side that selects the SQL operator and the bound values (abstract interpretation of
+    the coroutine up to the query's first await); the SQL text itself is not interpreted."""
+    from absint import table, Sym, Const
+    prog = ctx.prog
+    fns = []
+    for lz in prog.lazy:
+        if lz.kind != "coroutine" or "SqliteStore" not in lz.path or "LogStore" not in lz.path:
+            continue
+        b = lz.get()
+        if len(range_bounds(b)) == 2:
+            fns.append(b)
+    ctx.floor("C08.2", "ranged log queries (after, until)", len(fns), 2)
+    shapes = {}
+    for b in fns:
+        name = b.root.rsplit("::", 1)[-1]
+        fa, fu = range_bounds(b)      # trait contract: (.., after, until) in declaration order
+        # explore up to the first await of the query future (the rows after it depend on SQLite)
+        ys = {bb for bb, t in b.terms("yield")} | {bb for bb, t in b.calls() if callee_is(t["func"], "core::future::future::Future::poll")}
+        leaves = table(prog, b, lambda it: [Sym("env"), Sym("cx")], {"stop_at": ys})
+        ctx.evaluations += len(leaves)
+        rows = {}
+        for lf in leaves:
+            da, du = lf.discr("env.%d" % fa), lf.discr("env.%d" % fu)
+            calls = [e for e in lf.events if e[0] == "call"]
+            if not any(e[1].endswith("::fetch_optional") or e[1].endswith("::fetch_all") or e[1].endswith("::fetch_one")
+                       or e[1].endswith("::fetch") for e in calls):
+                continue            # row ended before the query was issued (encoding error)
+            ops = [e[2][0].expr().strip("'\"") for e in calls if e[1].endswith("Argument::new_display") and e[2]]
+            binds = [e[2][1].expr() for e in calls if e[1].endswith("::bind") and len(e[2]) > 1]
+            strip = lambda x: x[len("alloc::string::ToString::to_string("):-1] if x.startswith("alloc::string::ToString::to_string(") else x
+            lo, hi = (strip(binds[-2]), strip(binds[-1])) if len(binds) >= 2 else (None, None)
+            zero_rel = None
+            for (x, y), r in lf.rel.items():
+                if "env.%d as Some" % fa in x + y:
+                    zero_rel = "%s %s %s" % (x, r, y)
+            rows[(da, du, zero_rel)] = (tuple(ops), lo, hi)
+        for (da, du, zr), (ops, lo, hi) in sorted(rows.items(), key=str):
+            some_a = "(env.%d as Some).0" % fa
+            some_u = "(env.%d as Some).0" % fu
+            want_op = ">=" if da == 0 else ">"
+            want_lo = "0" if da == 0 else some_a
+            ok_hi = (hi in ("4294967295", "18446744073709551615")) if du == 0 else hi == some_u
+            ok = list(ops) == [want_op] and lo == want_lo and ok_hi and da is not None and du is not None
+            ctx.ob("C08.2", "%s: after=%s until=%s%s" % (name, {0: "None", 1: "Some"}.get(da), {0: "None", 1: "Some"}.get(du),
+                                                        " [%s]" % zr if zr else ""), ok,
+                   "%s builds `seq_num %s %s AND seq_num <= %s` for after=%s, until=%s%s; required: after=None -> `>= 0`, "
+                   "after=Some(a) -> `> a` for every a, until=None -> `<= MAX`, until=Some(u) -> `<= u`"
+                   % (name, "/".join(ops), lo, hi, {0: "None", 1: "Some(a)"}.get(da), {0: "None", 1: "Some(u)"}.get(du),
+                      " in the case " + zr if zr else ""), site=b.loc(),
+                   key="C08.2:%s:after=%s:until=%s" % (name, {0: "None", 1: "Some"}.get(da), {0: "None", 1: "Some"}.get(du)))
+        shapes[name] = {k[:2]: v for k, v in rows.items()}
+        ctx.floor("C08.2", "rows of %s" % name, len(rows), 4)
+    vals = list(shapes.values())
+    ctx.ob("C08.2", "sibling agreement of the ranged queries", all(v == vals[0] for v in vals) and len(vals) >= 2,
+           "bound translation differs between %s" % sorted(shapes), key="C08.2:siblings")
+    ctx.sample({"range translation": {n: {"after=%s,until=%s" % k: v for k, v in sh.items()} for n, sh in shapes.items()}})
+
+
 def run(ctx):
+    ctx.guarded(lambda: rule_ranges(ctx), "C08.2")
     ctx.explanation = (
         "Decides the never-panic clause for SqliteStore's LogStore and OperationStore methods: every "
         "Assert terminator, unwrap/expect, panicking macro and fallible index reachable through workspace "
         "callees (call graph with class-hierarchy closure, From/TryFrom conversions resolved) must be "
         "guarded (e.g. `len() - 1` behind a non-emptiness edge) or listed in the frozen triage table with a "
-        "reason. NOT decided: agreement of query results with an in-memory model — that is SQL text "
-        "evaluated by SQLite; no Rust-side structure carries it.")
+        "reason. C08.2: decision table of the Rust side of every ranged log query (which comparison operator and "
+        "which bound values are bound for after/until = None/Some), identical across the sibling queries and equal "
+        "to the documented range semantics. NOT decided: the SQL text evaluated by SQLite (agreement of results "
+        "with an in-memory model beyond the bound translation).")
     prog = ctx.prog
     rs = roots(prog)
     ctx.floor("C08.1", "SqliteStore LogStore/OperationStore methods", len(rs), 12)
